@@ -9,8 +9,9 @@ import sys
 import time
 
 VERIF = os.path.dirname(os.path.dirname(os.path.abspath(__file__)))
-REPLAYS = os.path.join(VERIF, "replays")
-EVIDENCE = os.path.join(VERIF, "evidence")
+# (VERIF_EVIDENCE_DIR: set only by tools/try_seed_wt.sh, so that trying a seeded change does not overwrite the committed evidence)
+REPLAYS = os.path.join(os.environ.get("VERIF_EVIDENCE_DIR") or VERIF, "replays")
+EVIDENCE = os.path.join(os.environ["VERIF_EVIDENCE_DIR"], "evidence") if os.environ.get("VERIF_EVIDENCE_DIR") else os.path.join(VERIF, "evidence")
 FINDINGS_FILE = os.path.join(VERIF, "known_findings.json")
 
 
